@@ -85,13 +85,48 @@ func newC17Ctx(r *Run, race *ssa.Function, stateT types.Type) *c17Ctx {
 	for _, fn := range r.P.ModFuncs {
 		eachInstr(fn, func(in ssa.Instruction) {
 			if ci, ok := in.(ssa.CallInstruction); ok {
-				if cal := ci.Common().StaticCallee(); cal != nil && e.mod[cal] {
+				if cal := c17Callee(ci.Common()); cal != nil && e.mod[cal] {
 					e.sites[cal] = append(e.sites[cal], ci)
 				}
 			}
 		})
 	}
 	return e
+}
+
+// c17Callee: the function a call runs — its static callee, or the one function literal that is
+// ever stored in the local variable the call reads its function value from.
+func c17Callee(c *ssa.CallCommon) *ssa.Function {
+	if cal := c.StaticCallee(); cal != nil || c.IsInvoke() {
+		return cal
+	}
+	ld, ok := c.Value.(*ssa.UnOp)
+	if !ok || ld.Op != token.MUL {
+		return nil
+	}
+	a, ok := ld.X.(*ssa.Alloc)
+	if !ok || a.Referrers() == nil {
+		return nil
+	}
+	var fn *ssa.Function
+	for _, ref := range *a.Referrers() {
+		switch x := ref.(type) {
+		case *ssa.DebugRef:
+		case *ssa.UnOp:
+			if x.Op != token.MUL {
+				return nil
+			}
+		case *ssa.Store:
+			mc, isLit := x.Val.(*ssa.MakeClosure)
+			if x.Addr != ssa.Value(a) || !isLit || fn != nil {
+				return nil
+			}
+			fn, _ = mc.Fn.(*ssa.Function)
+		default:
+			return nil // captured or passed on: other writers are possible
+		}
+	}
+	return fn
 }
 
 func c17IsContextDerivation(cal *ssa.Function) bool {
@@ -254,7 +289,7 @@ func (e *c17Ctx) use(f *c17Flow, v ssa.Value, in ssa.Instruction, visit, visitCe
 			if a != v {
 				continue
 			}
-			cal := c.StaticCallee()
+			cal := c17Callee(c)
 			switch {
 			case c17IsContextDerivation(cal) && i == 0:
 				f.derives = append(f.derives, x)
